@@ -212,6 +212,34 @@ fn check_extra(c: &ECase, info: &mut Info) -> Result<(), String> {
                 return Err(format!("well-formed extra data with unreserved IDs was refused: {e}"));
             }
             info.label("refused");
+            // the caller handles the error and carries on: whatever the writer does then, an archive it
+            // reports as finished must be valid and must not carry the refused bytes anywhere
+            let carried_on = catch(|| -> Result<Option<()>, String> {
+                let _ = w.write_all(b"written after the refusal");
+                match w.finish() {
+                    Ok(_) => Ok(Some(())),
+                    Err(_) => Ok(None),
+                }
+            })
+            .map_err(|p| format!("calls after refused extra data PANICKED: {p}"))??;
+            if carried_on.is_some() {
+                let bytes = sink.into_inner();
+                let p = parse::parse(&bytes[..], parse::Opts::lenient()).map_err(|x| format!("extra data was refused ({e}), the caller carried on, finish() returned Ok, but the archive is not valid: {x}"))?;
+                for (k, pe) in p.entries.iter().enumerate() {
+                    for (what, field) in [("local", &pe.local_extra), ("central", &pe.central_extra)] {
+                        let bad_local = !local_ok && local.len() >= 4 && field.windows(local.len()).any(|w| w == &local[..]);
+                        let bad_central = !central_ok && central.as_ref().map(|c| c.len() >= 4 && field.windows(c.len()).any(|w| w == &c[..])).unwrap_or(false);
+                        if bad_local || bad_central {
+                            return Err(format!("extra data was refused ({e}), the caller carried on, finish() returned Ok and entry {k} carries the refused bytes in its {what} header"));
+                        }
+                    }
+                }
+                let mut za = zip::ZipArchive::new(Cursor::new(&bytes[..])).map_err(|x| format!("archive finished after a refusal cannot be reopened: {x}"))?;
+                for i in 0..za.len() {
+                    let mut v = Vec::new();
+                    za.by_index(i).map_err(|x| x.to_string()).and_then(|mut f| f.read_to_end(&mut v).map_err(|x| x.to_string())).map_err(|x| format!("extra data was refused ({e}), the caller carried on, finish() returned Ok, but entry {i} cannot be read back: {x}"))?;
+                }
+            }
             return Ok(());
         }
         Err(e) => return Err(e),
@@ -254,7 +282,7 @@ fn check_extra(c: &ECase, info: &mut Info) -> Result<(), String> {
 }
 
 pub fn run(ctx: &mut Ctx) {
-    ctx.rule("aligned: alignment values (quick: 0,1,2,3,4,8,...,32768, 65521, 65535 and random; thorough: ALL 0..=65535) x preceding offsets (preceding entry size, name length; targeted residues so that the padding record lands at 0, 1, ... and next to the 16-bit limit) x large_file x method x position of the sink when the writer starts (0, around 2^32, up to 2^40; sparse sink): on Ok the data offset (independent parser and reader) is a multiple of the alignment, the returned value equals the padding record size, content round-trips, the next entry is intact; alignments <= 32768 must succeed; unrepresentable padding must be refused, never panic. extra: record lists with IDs over reserved (0..31, APPNOTE-registered) and unreserved ranges, sizes 0..65535, truncated tails, shared / split local+central: valid data stored verbatim (local after the writer's own ZIP64 record; central returned by extra_data()), invalid data refused. Non-trivial = padding needed or >=1 record.");
+    ctx.rule("aligned: alignment values (quick: 0,1,2,3,4,8,...,32768, 65521, 65535 and random; thorough: ALL 0..=65535) x preceding offsets (preceding entry size, name length; targeted residues so that the padding record lands at 0, 1, ... and next to the 16-bit limit) x large_file x method x position of the sink when the writer starts (0, around 2^32, up to 2^40; sparse sink): on Ok the data offset (independent parser and reader) is a multiple of the alignment, the returned value equals the padding record size, content round-trips, the next entry is intact; alignments <= 32768 must succeed; unrepresentable padding must be refused, never panic. extra: record lists with IDs over reserved (0..31, APPNOTE-registered) and unreserved ranges, sizes 0..65535, truncated tails, shared / split local+central: valid data stored verbatim (local after the writer's own ZIP64 record; central returned by extra_data()), invalid data refused - and when the caller carries on after the refusal and finish() reports success, the archive is valid and does not carry the refused bytes. Non-trivial = padding needed or >=1 record.");
     let fixed: Vec<u16> = vec![0, 1, 2, 3, 4, 5, 7, 8, 16, 32, 64, 128, 256, 512, 1024, 2048, 4096, 8192, 16384, 32768, 32769, 65521, 65534, 65535];
     let residues: [Option<u16>; 10] = [None, Some(0), Some(1), Some(2), Some(4), Some(5), Some(24), Some(25), Some(3), Some(44)];
     if ctx.tier == crate::engine::Tier::Thorough {
